@@ -1,6 +1,10 @@
 import Robotools.Props.C19
+import Robotools.Proofs.GenFns
 #print axioms Robotools.C19.rejects_empty
 #print axioms Robotools.C19.length_eq
 #print axioms Robotools.C19.get_mod
 #print axioms Robotools.C19.zero
 #print axioms Robotools.C19.arr_colmajor
+#print axioms Robotools.GenFns.all_translated
+#print axioms Robotools.GenFns.gen_get_trough_wells_ok
+#print axioms Robotools.GenFns.gen_get_trough_wells_neg
